@@ -156,6 +156,10 @@ type vc06Server struct {
 	mu    sync.Mutex
 	reply func(req []byte) []byte
 
+	// split, if positive, makes the TCP side deliver each framed reply in two
+	// segments, cut split octets into the frame (prefix included).
+	split int
+
 	pc net.PacketConn
 	ln net.Listener
 	wg sync.WaitGroup
@@ -222,6 +226,18 @@ func vc06StartServer(t *testing.T) (s *vc06Server) {
 					}
 
 					out := append(binary.BigEndian.AppendUint16(nil, uint16(len(r))), r...)
+					s.mu.Lock()
+					cut := s.split
+					s.mu.Unlock()
+					if cut > 0 && cut < len(out) {
+						if _, werr := c.Write(out[:cut]); werr != nil {
+							return
+						}
+
+						time.Sleep(2 * time.Millisecond)
+						out = out[cut:]
+					}
+
 					if _, werr := c.Write(out); werr != nil {
 						return
 					}
@@ -247,6 +263,13 @@ func (s *vc06Server) set(f func(req []byte) []byte) {
 	s.reply = f
 }
 
+func (s *vc06Server) setSplit(n int) {
+	s.mu.Lock()
+	defer s.mu.Unlock()
+
+	s.split = n
+}
+
 func (s *vc06Server) close() {
 	_ = s.pc.Close()
 	_ = s.ln.Close()
@@ -256,7 +279,7 @@ func (s *vc06Server) close() {
 func TestVerifC06UpstreamExchange(t *testing.T) {
 	st := vstat.New("C06", "forward.exchange",
 		"rapid (upstream network any/udp/tcp, history of valid marker exchanges, next reply as above, served with the request's ID or its own) through the real UpstreamPlain.Exchange against scripted loopback UDP+TCP servers; oracle: accepted iff the reply's own bytes decode and ID, question name (case-insensitive) and type match, and then the result equals that decode; non-trivial = reply inconsistent; distinct by (network, reply bytes)",
-		"accepted", "rejected", "kind-header-only", "kind-pointer", "kind-counts", "kind-truncated")
+		"accepted", "rejected", "kind-header-only", "kind-pointer", "kind-counts", "kind-truncated", "tcp-reply-in-two-segments")
 	st.Finish(t)
 
 	var srv *vc06Server
@@ -310,7 +333,15 @@ func TestVerifC06UpstreamExchange(t *testing.T) {
 			return r
 		})
 
+		// Over TCP the reply frame may arrive in two segments.
+		split := 0
+		if rapid.Bool().Draw(t, "splitReply") {
+			split = rapid.OneOf(rapid.SampledFrom([]int{1, 2, 3, 13, 14, 15}), rapid.IntRange(1, len(reply)+1)).Draw(t, "splitAt")
+		}
+
+		srv.setSplit(split)
 		resp, _, err := u.Exchange(ctx, req)
+		srv.setSplit(0)
 
 		// Reference.
 		sent := append([]byte(nil), reply...)
@@ -323,6 +354,10 @@ func TestVerifC06UpstreamExchange(t *testing.T) {
 			ref.Question[0].Qtype == req.Question[0].Qtype && strings.EqualFold(ref.Question[0].Name, req.Question[0].Name)
 
 		classes := []string{"kind-" + next.Kind, "net-" + string(nw)}
+		if split > 0 && nw == NetworkTCP {
+			classes = append(classes, "tcp-reply-in-two-segments")
+		}
+
 		nt := ""
 		if next.Inconsistent {
 			nt = string(nw) + string(sent)
